@@ -105,8 +105,11 @@ def run_property(prop, tier, seed, root=None, write_evidence=True, quiet=False, 
             r.rep.own_functions = set(r.rep.functions)      # what the property's own rules read (before the dependency closure adds to it)
             # the dependency closure runs whatever became of the property's own rules (a lint in a callee is a finding of its own); if it
             # stops on something it cannot read and the own rules had stopped before, the first stop is the one reported
-            if not os.environ.get("PRSA_NO_DEPS") and not getattr(r.mod, "NO_DEPENDENCY_CLOSURE", False) and r.rep.functions:
-                import sys as _sys
+            import sys as _sys
+            # own rules that stopped on something they cannot read had not yet declared the functions they were reading: the closure then
+            # starts from every function whose summary they had asked for
+            r.read_functions = {q for q in r.A._cache if q in r.P.functions} if isinstance(_sys.exc_info()[1], AnalysisBroken) else set()
+            if not os.environ.get("PRSA_NO_DEPS") and not getattr(r.mod, "NO_DEPENDENCY_CLOSURE", False) and (r.rep.functions or r.read_functions):
                 pending = _sys.exc_info()[1]
                 from .deps import run_dependencies
                 try:
